@@ -48,8 +48,9 @@ def UpVerb.mode : UpVerb → Mode
   | .stor => .wb
   | .appe => .ab
 
-/-- the shipped backends differ in one point the workers can reach: `r+b` on a missing file
-    (`MemoryPathIO._open` creates it, `pathlib.Path.open("r+b")` raises `FileNotFoundError`) -/
+/-- the shipped backends; they no longer differ in anything the workers can reach (on the pinned tree
+    `MemoryPathIO._open("r+b")` created a missing file where `pathlib.Path.open("r+b")` raises — finding
+    F7-c, repaired in /repo) -/
 inductive Backend where
   | memory | posix
   deriving DecidableEq, Repr
@@ -66,7 +67,7 @@ def openFile (be : Backend) (old : Option Bytes) : Mode → Option BytesIO
   | .rpb =>
     match old with
     | some c => some (BytesIO.ofBytes c)
-    | none => if be = .memory then some (BytesIO.ofBytes []) else none
+    | none => none        -- every shipped backend raises FileNotFoundError (MemoryPathIO used to create: F7-c)
 
 /-- `AsyncStreamIterator` over the results of successive reads: stops at the FIRST empty one -/
 def iterByBlock : List Bytes → List Bytes
